@@ -8,6 +8,22 @@
   Wait / IsDone / accept / frag calls on one session), `sched : List Nat` ANY schedule of their
   atomic actions (entries naming finished, blocked or non-existent threads are no-ops), starting
   from a fresh session `{}`. Nothing is bounded.
+
+  Scope notes (from an adversarial review of these statements, see DESIGN.md Appendix B.5):
+  * granularity: the locked region of `Cancel` (delete; close(done); Status = Canceled; done = nil)
+    is ONE atomic action of the model. Lock-free readers (`Wait`, `IsDone`, a `Status` read) can in
+    the real code run inside that region and see the channel closed with the old Status;
+    `status_first_event` / `released_once` / `finished_is_final` speak about the states between
+    actions, i.e. once the finishing call has left its locked region. Open: the sub-steps of that
+    region as seen by lock-free readers.
+  * all universally quantified theorems are safety statements (nothing wrong is recorded); that a
+    result for a pending Job IS recorded is shown on examples and by the differential run.
+  * `St.count` (the unlocked `len(s.jobs)` test of `handle`) is not part of the invariant.
+  * `Task` registers a caller-supplied Job number as it is (also 1, whose result `handle` then drops:
+    `low_numbers_ignored`); "never 0 or 1" is proved for the numbers `newJobID` hands out
+    (`jobid_fresh`). The harness never supplies a number below 2.
+  * `resync_only_for_pending` is definitional on purpose: it pins the gate to `hasJob` alone; the tie is
+    the differential op `resync`.
 -/
 import XMT.JobInv
 namespace XMT.Props.C14
